@@ -6,9 +6,10 @@
 package verifimport
 
 import (
-	"encoding/json"
 	"context"
+	"encoding/json"
 	"fmt"
+	"github.com/conduitio/conduit-commons/opencdc"
 	"os"
 	"regexp"
 	"sort"
@@ -365,6 +366,10 @@ func TestVerifC15(t *testing.T) {
 					break
 				}
 				_, _ = f.conn.SetState(ctx, "pl:A", connector.SourceState{Position: []byte("p7")})
+				if oc.HasB {
+					// the destination has a run behind it too: it remembers the last position it wrote per source
+					_, _ = f.conn.SetState(ctx, "pl:B", connector.DestinationState{Positions: map[string]opencdc.Position{"pl:A": []byte("p7")}})
+				}
 				fbefore, fstore := f.dump(), f.storeDump()
 				f.ops, f.failK = 0, k
 				ferr := f.prov.Import(ctx, neu)
@@ -376,7 +381,11 @@ func TestVerifC15(t *testing.T) {
 					bad("failed-write-ignored", fmt.Sprintf("store write #%d of the import failed but the import reported success", k))
 					continue
 				}
-				if after := f.dump(); after != fbefore {
+				if after := f.dump(); after != fbefore && oc.HasB && !nc.HasB && stripStateOf(after, "pl:B") == stripStateOf(fbefore, "pl:B") {
+					// specific shape: the only thing lost is the state (positions) of a connector the failed import was about
+					// to remove - its delete action is rolled back by CREATING the connector anew
+					bad("failed-import-not-atomic/removed-connector-state-lost", fmt.Sprintf("the import failed at store write #%d (%v) and was rolled back, but connector pl:B - which the import was going to remove - lost its stored state:\n--- before\n%s\n--- after\n%s", k, firstLine(ferr), fbefore, after))
+				} else if after != fbefore {
 					bad("failed-import-not-atomic", fmt.Sprintf("the import failed at store write #%d (%v) but the previous configuration was not fully retained:\n--- before\n%s\n--- after\n%s", k, firstLine(ferr), fbefore, after))
 				} else if f.storeDump() != fstore {
 					bad("failed-import-not-atomic/store", fmt.Sprintf("the import failed at store write #%d but the set of stored keys changed: %s -> %s", k, fstore, f.storeDump()))
@@ -389,6 +398,17 @@ func TestVerifC15(t *testing.T) {
 		}
 	}
 	rep.Extra("pairs_this_shard", pairs)
+}
+
+// stripStateOf removes the state of one connector from a dump.
+func stripStateOf(dump, id string) string {
+	lines := strings.Split(dump, "\n")
+	for i, l := range lines {
+		if strings.HasPrefix(l, "connector "+id+" ") {
+			lines[i] = regexp.MustCompile(` state=.* pipeline=`).ReplaceAllString(l, " state=? pipeline=")
+		}
+	}
+	return strings.Join(lines, "\n")
 }
 
 var condRe = regexp.MustCompile(` cond="(?:[^"\\]|\\.)*"`)
